@@ -12,6 +12,7 @@ import (
 	"crypto/rand"
 	"encoding/json"
 	"fmt"
+	"sort"
 	"strings"
 
 	"github.com/btcsuite/btcutil/base58"
@@ -231,7 +232,15 @@ func (v *VDR) Create(did *docdid.Doc,
 		return nil, err
 	}
 
+	// the keys go into the create request (and hence into the DID) in a fixed order
+	keyIDs := make([]string, 0, len(pks))
 	for k := range pks {
+		keyIDs = append(keyIDs, k)
+	}
+
+	sort.Strings(keyIDs)
+
+	for _, k := range keyIDs {
 		createOpt = append(createOpt, create.WithPublicKey(pks[k].publicKey))
 	}
 
